@@ -98,7 +98,7 @@ def init_dispatch_case():
   return fn
 
 
-def cycle_case(d, max_proj, stale_satisfy, eigh_mode='contract'):
+def cycle_case(d, max_proj, stale_satisfy, eigh_mode='contract', diagonal_state=False):
   """one cycle of the projected-gradient loop from an ARBITRARY state whose kept iterate A_old is PSD
   and within budget: afterwards A_old is still PSD and within the 1% tolerance of the budget"""
   def fn(ctx):
@@ -110,6 +110,13 @@ def cycle_case(d, max_proj, stale_satisfy, eigh_mode='contract'):
     A_old = ctx.sym_matrix('Aold', d)
     Mdir = ctx.real('Mdir', (d, d))
     w = ctx.real('w', d * d)
+    if diagonal_state:
+      # stated bound of this variant: the current iterate and the constraint plane are diagonal (axis-aligned similar pairs), so the
+      # eigen-decomposition is exact and linear for the solver and every model replays with the real eigh
+      for i in range(d):
+        for j in range(d):
+          if i != j:
+            ctx.assume(ctx.and_(ctx.eq(A[i, j], 0, tol=0.0), ctx.eq(w[i * d + j], 0, tol=0.0)))
     t = ctx.real('t')
     alpha = ctx.real('alpha')
     ctx.assume_pos(t)
@@ -357,6 +364,7 @@ def cases(tier, seed):
                   hard_timeout_s=4000))
   out.append(case('cycle_d2_budget', cycle_case(2, 1, True, eigh_mode='uninterpreted'), FUNCS,
                   'one cycle from an arbitrary state, d=2, max_proj=1, spectrum uninterpreted: budget and acceptance obligations only', cost=20, validate=60, hard_timeout_s=600))
+  # (a variant with a diagonal current iterate and eigh by contract was tried for C14_m4: no verdict within 15 min -- not registered)
   out.append(case('init_dispatch', init_dispatch_case(), FUNCS, 'init in {identity, covariance, random, array} x diagonal in {False, True}', cost=1))
   out.append(case('cycle_d1_proj2', cycle_case(1, 2, True), FUNCS, 'd=1, max_proj=2', tiers=T, cost=10, validate=0))
   out.append(case('grad_projection_d1', grad_projection_case(1), FUNCS, 'arbitrary 1x1 gradients', tiers=T, cost=1))
